@@ -125,7 +125,7 @@ func TestC05(t *testing.T) {
 				yield(c)
 			}
 		}
-		for i, n := 0, vt.Pick(100, 2000); i < n; i++ {
+		for i, n := 0, vt.Pick(100, 800); i < n; i++ {
 			yield(c05RandomEndpoints(rnd))
 		}
 	}
